@@ -47,6 +47,19 @@ func programs(thorough bool) []*prog.Shape {
 			shapes = append(shapes, c)
 		}
 	}
+	// many struct-typed fields under one parent (more than 8, 16)
+	for _, sig := range []string{
+		strings.Repeat("R(r)", 18),
+		strings.Repeat("O(o)", 9) + "r" + strings.Repeat("R(o)", 9),
+		"R(" + strings.Repeat("O(r)", 17) + ")r",
+		strings.Repeat("R(r)", 5) + strings.Repeat("P(r)", 12),
+	} {
+		c, err := prog.ParseSig(sig)
+		if err != nil {
+			panic(err)
+		}
+		shapes = append(shapes, c)
+	}
 	// third axis: one struct type used by several fields.  Every shape above in
 	// which two groups have the same children, declared with a single shared
 	// type for them (signature prefix "~")
@@ -61,8 +74,22 @@ func programs(thorough bool) []*prog.Shape {
 	// name an unexported field ("u0, F0 int32" and "F0, u0 int32"): every shape
 	// of depth <= 1 with <= 2 leaves
 	for _, s := range prog.Enumerate(1, 2, 9) {
-		for _, d := range []string{"u", "g"} {
+		for _, d := range []string{"u", "g", "n"} {
 			c, _ := prog.ParseSig("^" + d + s.Sig())
+			shapes = append(shapes, c)
+		}
+	}
+	// fifth axis: the struct lives in another package and the code is
+	// generated with -import (dot import of that package): every shape of depth
+	// <= 1 with <= 2 leaves, and the single-leaf shapes of every leaf type
+	for _, s := range prog.Enumerate(1, 2, 9) {
+		c, _ := prog.ParseSig("@" + s.Sig())
+		shapes = append(shapes, c)
+	}
+	for _, typ := range []string{"uint32", "int64", "uint64", "float32", "float64", "bool", "string"} {
+		for _, sig := range []string{"r", "o", "p", "O(r)", "P(o)"} {
+			c, _ := prog.ParseSig("@" + sig)
+			setType(c.Fields, typ)
 			shapes = append(shapes, c)
 		}
 	}
@@ -103,7 +130,7 @@ func runBatch(c *fw.Ctx, tier string, b int, shapes []*prog.Shape, keep bool) ([
 	var progs []prog.Program
 	for i, s := range shapes {
 		name := fmt.Sprintf("s%05d", i)
-		progs = append(progs, prog.Program{Name: name, Target: s.Sig(), Type: "T", Source: s.Source(name)})
+		progs = append(progs, prog.Program{Name: name, Target: s.Sig(), Type: "T", Source: s.Source(name), ExternalType: s.External})
 	}
 	sNodes, pairCap := "5", "10"
 	if tier == "thorough" {
@@ -131,7 +158,7 @@ func run(c *fw.Ctx) {
 	const batchSize = 130
 	nb := (len(shapes) + batchSize - 1) / batchSize
 	c.Bound("programs", len(shapes))
-	c.Bound("grammar", "leaves int32 x {required, optional, repeated}, groups {required, optional, repeated}; quick: depth<=2 & leaves<=2 (2073) + 39 single-leaf shapes x 7 other leaf types + every shape in which two groups have the same children once more with one shared struct type for them (~) + every shape of depth<=1 with <=2 leaves declared with grouped names including an unexported one (^u, ^g); thorough adds depth<=3 & leaves<=2 and depth<=1 & leaves<=3")
+	c.Bound("grammar", "leaves int32 x {required, optional, repeated}, groups {required, optional, repeated}; quick: depth<=2 & leaves<=2 (2073) + 39 single-leaf shapes x 7 other leaf types + every shape in which two groups have the same children once more with one shared struct type for them (~) + every shape of depth<=1 with <=2 leaves declared with grouped names including an unexported one (^u, ^g) or followed by other code - constants, an interface, an unrelated struct, a method and a function with local types named like the package-level ones (^n) + the same shapes and every leaf type with the struct in another package and -import (@); thorough adds depth<=3 & leaves<=2 and depth<=1 & leaves<=3")
 	classes := map[string]int64{}
 	for b := 0; b < nb; b++ {
 		if b%c.Shards != c.Shard {
